@@ -132,6 +132,100 @@ def exec_real(case):
     return exec_case(case, real=True)
 
 
+def exec_tile_fits_toast(case):
+    """FITS auto-tiling in TOAST mode of several images: the leaves are sampled by toasty itself; the
+    truth is taken from the leaf tile files on disk (read with astropy), the oracle is the same."""
+    import toasty
+    from astropy.io import fits
+    from toasty.pyramid import PyramidIO, Pos
+    from .. import wcsgen
+
+    old_env = os.environ.get("SLURM_NPROCS")
+    os.environ["SLURM_NPROCS"] = "1"
+    try:
+        with fresh_dir("c14t-") as d:
+            paths = []
+            for i, im in enumerate(case["images"]):
+                w, h = im["size"]
+                spec = dict(im["wcs"])
+                y, x = np.indices((h, w))
+                data = ((x * 7 + y * 3) % 50 + 1).astype(np.float32) * im["gain"] + im["offset"]
+                pth = os.path.join(d, f"im{i}.fits")
+                fits.writeto(pth, data.astype(np.float32), header=wcsgen.header_of(spec, w, h))
+                paths.append(pth)
+            out = os.path.join(d, "out")
+            start = case["start"]
+            what = f"tile_fits TOAST of {len(paths)} images, start={start}"
+            import warnings
+
+            with toasty_call("workflow", what):
+                with warnings.catch_warnings():
+                    warnings.simplefilter("ignore")
+                    odir, bld = toasty.tile_fits(paths, out_dir=out, parallel=1, tiling_method=toasty.TilingMethod.TOAST, start=start)
+            pio = PyramidIO(out, default_format="fits")
+            leaves = {}
+            for yy in range(2**start):
+                for xx in range(2**start):
+                    pth = pio.tile_path(Pos(start, xx, yy), makedirs=False)
+                    if os.path.exists(pth):
+                        with fits.open(pth) as hl:
+                            a = np.array(hl[0].data, dtype=np.float64)
+                        if np.isfinite(a).any():
+                            leaves[(start, xx, yy)] = a
+            if not leaves:
+                return Outcome(classes=["tile_fits_toast", "no-leaves"], nontrivial=False)
+            checked = 0
+            root = None
+            for n in range(start + 1):
+                for yy in range(2**n):
+                    for xx in range(2**n):
+                        p = (n, xx, yy)
+                        vals = [a[np.isfinite(a)] for q, a in leaves.items() if rp.is_desc_or_self(q, p)]
+                        pth = pio.tile_path(Pos(*p), makedirs=False)
+                        if not vals:
+                            continue
+                        lo, hi = float(min(v.min() for v in vals)), float(max(v.max() for v in vals))
+                        if not os.path.exists(pth):
+                            raise Violation("tile-missing", f"{what}: tile {p} has sampled leaf data beneath it but does not exist")
+                        with fits.open(pth) as hl:
+                            hdr = hl[0].header
+                        for key, exp in (("DATAMIN", lo), ("DATAMAX", hi)):
+                            got = float(hdr[key]) if key in hdr else None
+                            if got is None or not abs(got - exp) <= 1.2e-7 * max(abs(exp), abs(got)) + 1e-30:
+                                raise Violation("range", f"{what}: tile {p} records {key} = {got!r}; the leaf tiles beneath it have {exp!r}")
+                        checked += 1
+                        if n == 0:
+                            root = (lo, hi)
+            tree = ET.parse(os.path.join(out, "index_rel.wtml"))
+            iset = [e for e in tree.iter() if e.tag == "ImageSet"][0]
+            for key, exp, attr in (("DataMin", root[0], "data_min"), ("DataMax", root[1], "data_max")):
+                v = float(iset.attrib.get(key, "0"))
+                if not abs(v - exp) <= 1.2e-7 * max(abs(exp), 1e-30) + 1e-30:
+                    raise Violation("wtml-range", f"{what}: index_rel.wtml has {key}={v!r}, the leaf tiles span {root}")
+                bv = getattr(bld.imgset, attr)
+                if bv is None or not abs(float(bv) - exp) <= 1.2e-7 * max(abs(exp), 1e-30) + 1e-30:
+                    raise Violation("wtml-range", f"{what}: the returned Builder has {attr}={bv!r}, the leaf tiles span {root}")
+    finally:
+        if old_env is None:
+            os.environ.pop("SLURM_NPROCS", None)
+        else:
+            os.environ["SLURM_NPROCS"] = old_env
+    return Outcome(classes=["tile_fits_toast", f"images{len(case['images'])}", f"start{start}"], nontrivial=len(case["images"]) >= 2 and len(leaves) >= 2, count=checked)
+
+
+@st.composite
+def strat_tile_fits_toast(draw, tier):
+    from .. import wcsgen
+
+    imgs = []
+    for i in range(draw(st.integers(1, 3))):
+        spec = draw(wcsgen.wcs_specs(projections=("TAN",), max_dec=70, min_scale_log=-1.0, max_scale_log=-0.6, allow_skew=False))
+        spec["ratio"] = 1.0
+        spec["crpix_mode"] = "half"
+        imgs.append({"size": [draw(st.integers(16, 64)), draw(st.integers(16, 64))], "wcs": spec, "gain": draw(st.sampled_from([1.0, 0.01, 4.0])), "offset": draw(st.sampled_from([0.0, 100.0, -300.0, 1000.0]))})
+    return {"images": imgs, "start": draw(st.integers(1, 3))}
+
+
 def strat(tier):
     return cc.cascade_cases(tier, formats=["fits"], want_range=True)
 
@@ -147,6 +241,8 @@ def strat_real(draw, tier):
 PARTS = [
     Part("data_range", exec_case, strategy=strat, examples={"quick": 240, "thorough": 8000}, shards={"quick": 16, "thorough": 16},
          budget_s={"quick": 75, "thorough": 1500}, engine="serial for k=1, A for k>=2", describe="generated FITS pyramids, Builder.cascade + index_rel.wtml"),
+    Part("tile_fits_toast", exec_tile_fits_toast, strategy=strat_tile_fits_toast, examples={"quick": 48, "thorough": 1500}, shards={"quick": 16, "thorough": 16},
+         budget_s={"quick": 75, "thorough": 1500}, describe="FITS auto-tiling in TOAST mode of 1-3 images anywhere on the sky: ranges of every tile vs the sampled leaf tiles on disk; WTML and returned Builder vs the root"),
     Part("data_range_realmp", exec_real, strategy=strat_real, examples={"quick": 32, "thorough": 400}, shards={"quick": 8, "thorough": 16},
          budget_s={"quick": 60, "thorough": 1200}, shrink=False, engine="R (real multiprocessing)", describe="the same on real multiprocessing, 2-4 workers"),
 ]
